@@ -437,6 +437,32 @@ impl<'s, M: Matcher, S: Sink> Core<'s, M, S> {
                         pos = buf.len();
                         continue;
                     }
+                    // With a CRLF line terminator, a match ending between
+                    // the `\r` and the `\n` lies outside of the line's
+                    // content (e.g., `\B` matches the empty string there),
+                    // so confirm it against the line without its terminator,
+                    // as is done for candidates below.
+                    let end = pos + i;
+                    if self.config.line_term.is_crlf()
+                        && end > 0
+                        && buf[end - 1] == b'\r'
+                        && buf.get(end) == Some(&b'\n')
+                    {
+                        let slice = lines::without_terminator(
+                            &buf[line],
+                            self.config.line_term,
+                        );
+                        match self.matcher.is_match(slice) {
+                            Err(err) => {
+                                return Err(S::Error::error_message(err))
+                            }
+                            Ok(true) => return Ok(Some(line)),
+                            Ok(false) => {
+                                pos = line.end();
+                                continue;
+                            }
+                        }
+                    }
                     return Ok(Some(line));
                 }
                 Ok(Some(LineMatchKind::Candidate(i))) => {
